@@ -7,6 +7,8 @@ import Driver.C20
 import Driver.C07
 import Driver.C15
 import Driver.C10
+import Driver.C13
+import Driver.C14
 /-!
 # Line-protocol driver
 
@@ -26,6 +28,8 @@ def dispatch (inp obs : List String) : Verdict :=
   | some "C07" => Driver.C07.run inp obs
   | some "C15" => Driver.C15.run inp obs
   | some "C10" => Driver.C10.run inp obs
+  | some "C13" => Driver.C13.run inp obs
+  | some "C14" => Driver.C14.run inp obs
   | _ => { agree := false, model := "unknown-model" }
 
 partial def loop (h : IO.FS.Stream) (out : IO.FS.Stream) : IO Unit := do
